@@ -228,6 +228,8 @@ func runC19(p *eng.Prog, r *eng.Report, tier string) {
 	c.r.Note("C19.10: %d start-element edges in token loops examined", nloop)
 	noManualEscaping(c, "C19.35", inC19)
 	iteratorValuePerItem(c, "C19.36", inC19)
+	decodeTargetsAreFresh(c, "C19.37", inC19)
+	encoderLoopsDoNotFilter(c, "C19.38", inC19)
 	c.r.Floor("C19.34", "start-element edges in the token loops of the payload decoders", decoderLoopVisitsEveryChild(c, "C19.34", inC19), 1)
 	ntag := tagNamespaceAgreement(c, "C19.3", inC19)
 	c.r.Note("C19.3: %d decoder tags with an encoder counterpart examined", ntag)
@@ -675,4 +677,153 @@ func iteratorValuePerItem(c *cx, id string, in func(f *eng.Fn) bool) {
 		}
 	}
 	c.r.Floor(id, "reported fields of iterators on true returns", n, 6)
+}
+
+// decodeTargetsAreFresh (C19.37): an UnmarshalXML method decodes into a fresh
+// local and then assigns the receiver: encoding/xml leaves the fields of the
+// target alone for children and attributes that are absent, so decoding
+// straight into the receiver (or one of its fields) keeps the previous
+// document's optional values when a value is reused for a second document.
+func decodeTargetsAreFresh(c *cx, id string, in func(f *eng.Fn) bool) {
+	n := 0
+	for _, f := range c.allFns() {
+		if !in(f) || f.Decl == nil || f.Decl.Name.Name != "UnmarshalXML" || f.Decl.Recv == nil || f.Sig() == nil {
+			continue
+		}
+		recv := f.Sig().Recv()
+		for _, cl := range f.Calls("encoding/xml.Decoder.Decode*") {
+			if len(cl.Args) == 0 {
+				continue
+			}
+			n++
+			arg := ast.Unparen(cl.Args[0])
+			if u, ok := arg.(*ast.UnaryExpr); ok && u.Op == token.AND {
+				arg = ast.Unparen(u.X)
+			}
+			root := rootLocal(f, arg)
+			bad := ""
+			if root != nil && types.Object(root) == types.Object(recv) {
+				bad = "decodes into " + types.ExprString(cl.Args[0])
+			}
+			c.r.Check(id, f, "decode target "+f.Norm(cl.Args[0], nil), "E-alias: the target of a Decode / DecodeElement in an UnmarshalXML method is not the receiver or one of its fields (what the document leaves out would keep its old value)", cl.Pos(), bad == "", bad+": optional parts absent from this document keep the values of the previous one")
+		}
+	}
+	c.r.Floor(id, "decode calls in UnmarshalXML methods", n, 15)
+}
+
+// encoderLoopsDoNotFilter (C19.38): an encoder that writes one child per
+// element of a slice or map writes one for EVERY element: each iteration of
+// the loop reaches the next one only through the statement that adds to the
+// output, except where a table below lists the guard under which an element
+// is deliberately left out (with the reason). A skipped element is missing
+// from the encoded form and the decoded value has fewer entries.
+var emissionFilters = map[string][]string{
+	// function -> facts under which an iteration may emit nothing
+	"upload.marshalHeaders": {"!upload.allowedHeader(*)"}, // XEP-0363 allows three headers only
+	// data forms: which values of a field are written depends on the field's
+	// type and on the form's type (submit); those filters are decided value by
+	// value by C19.25 / C20.6 / C20.7, not by this rule
+	"form.(*field).TokenReader": {"*"},
+	"form.(*Data).TokenReader":  {"*"},
+}
+
+func encoderLoopsDoNotFilter(c *cx, id string, in func(f *eng.Fn) bool) {
+	n := 0
+	for _, f := range c.allFns() {
+		if !in(f) || f.Body == nil {
+			continue
+		}
+		// encoders: functions that return an xml.TokenReader (or a slice of them)
+		sig := f.Sig()
+		if sig == nil || sig.Results().Len() == 0 {
+			continue
+		}
+		rt := eng.TypeStr(sig.Results().At(0).Type())
+		if rt != "encoding/xml.TokenReader" {
+			continue
+		}
+		g := f.Graph()
+		f.WalkBody(func(nd ast.Node) bool {
+			rs, ok := nd.(*ast.RangeStmt)
+			if !ok {
+				return true
+			}
+			// the statement that adds to the output: an append whose operands mention the loop variables
+			var vars []types.Object
+			for _, e := range []ast.Expr{rs.Key, rs.Value} {
+				if idn, ok := e.(*ast.Ident); ok && idn.Name != "_" {
+					vars = append(vars, f.Info().ObjectOf(idn))
+				}
+			}
+			if len(vars) == 0 {
+				return true
+			}
+			mentions := func(x ast.Node) bool {
+				found := false
+				ast.Inspect(x, func(y ast.Node) bool {
+					if idn, ok := y.(*ast.Ident); ok {
+						for _, v := range vars {
+							if f.Info().ObjectOf(idn) == v {
+								found = true
+							}
+						}
+					}
+					return !found
+				})
+				return found
+			}
+			isEmit := func(q eng.Point, x ast.Node) bool {
+				found := false
+				ast.Inspect(x, func(y ast.Node) bool {
+					if cl, ok := y.(*ast.CallExpr); ok && f.CalleeID(cl) == "builtin.append" && len(cl.Args) > 1 {
+						for _, a := range cl.Args[1:] {
+							if mentions(a) {
+								found = true
+							}
+						}
+					}
+					// nested loop over the element's own values counts as its emission
+					if inner, ok := y.(*ast.RangeStmt); ok && inner != rs && mentions(inner.X) {
+						found = true
+					}
+					return !found
+				})
+				// go/cfg places the operand of an inner range statement as a node of
+				// its own: reaching it is reaching the element's emission loop
+				if ex, ok := x.(ast.Expr); ok && !found {
+					if inner, ok := g.Parent(ex).(*ast.RangeStmt); ok && inner != rs && inner.X == ex && mentions(ex) {
+						found = true
+					}
+				}
+				return found
+			}
+			hasEmit := false
+			ast.Inspect(rs.Body, func(y ast.Node) bool {
+				if st, ok := y.(ast.Stmt); ok && isEmit(eng.Point{}, st) {
+					hasEmit = true
+				}
+				return !hasEmit
+			})
+			if !hasEmit {
+				return true
+			}
+			body, head, done, okp := g.LoopPoints(rs)
+			if !okp {
+				return true
+			}
+			n++
+			// cut the edges of the listed filters, then ask whether the next
+			// iteration can still be reached without emitting
+			cut := eng.Cut{}
+			for _, pat := range emissionFilters[f.Short] {
+				for _, ce := range g.EdgesMatching(pat) {
+					cut[ce.E] = true
+				}
+			}
+			okw := !g.Reachable(body, head, cut, isEmit) && !g.Reachable(body, done, cut, isEmit)
+			c.r.Check(id, f, "loop over "+f.Norm(rs.X, nil)+" writes every element", "O: each iteration of an encoder's loop adds its element to the output before the next iteration (listed filters excepted)", rs.Pos(), okw, "an iteration can go on without writing its element: the encoded form has fewer entries than the value")
+			return true
+		})
+	}
+	c.r.Floor(id, "element loops in encoders", n, 5)
 }
